@@ -574,6 +574,8 @@ class Gen:
                 st["overlap"] = int(r.integers(1, 6))
         elif st is None:
             st = {"op": op, "c": i, "d": self.pick_dataset(sim, cl, "bad_data" in self.cfg["faults"])}
+        if st["op"] in ("evaluate", "transform_scores") and r.random() < 0.06:
+            st["scribble"] = True
         # faults inside calls
         if st["op"] in DATA_OPS + ("update", "evaluate") and r.random() < self.cfg["p_fault"]:
             kinds = [k for k in self.cfg["faults"] if k in ("interrupt", "flaky")]
@@ -1231,7 +1233,60 @@ def scale_tasks():
                 if sizes[0][1] > 1 and kind == "StatThresholdAnomaliser":
                     continue
                 tasks.append({"det": kind, "scorer": sc, "sizes": sizes})
+    for sc in ("l2", "gv", "gc", "cusum", "l2sav", "cs_gv", "sav_l2f", "las_gv", "ad"):
+        tasks.append({"det": None, "scorer": sc, "sizes": ((330, 1), (330, 1))})
     return tasks
+
+
+def run_scale_scorer(task, seed, idx, pristine):
+    """A scorer used directly on a long series with batches of hundreds of cuts: the
+    same batch again after the caller scribbled on the returned array, the batch
+    shuffled, a refit on a same-shape twin, the batch again."""
+    from histsim.c10 import Sim
+
+    rng = core.make_rng(seed, "C10", 4 * 10**6 + idx)
+    n, p = 330, (2 if task["scorer"] == "gc" else 1)
+
+    def mk(did):
+        x = np.round(rng.normal(size=(n, p)), 2)
+        x[100:140] += 3.0
+        return {"id": did, "family": 0, "container": "ndarray", "dtype": "float64", "index": {"kind": "range", "start": 0}, "columns": [f"v{j}" for j in range(p)], "values": values_to_json(x)}
+
+    k = {"cusum": 3, "cs_gv": 3, "las_gv": 4}.get(task["scorer"], 2)
+    rows = []
+    for _ in range(int(rng.integers(280, 520))):
+        pts = sorted(int(v) for v in rng.choice(np.arange(0, n + 1, 4), size=k, replace=False))
+        rows.append(pts)
+    shuffled = [rows[j] for j in rng.permutation(len(rows))]
+    trace = {
+        "property": "C10",
+        "seed": int(seed),
+        "run": int(idx),
+        "tier": "scale",
+        "config": {"routes": ["clone"], "pristine": True, "scale": task},
+        "datasets": [mk(0), mk(1)],
+        "objects": [{"name": "s0", "spec": json_copy(SWEEP_SCORERS[task["scorer"]])}],
+        "steps": [
+            {"op": "fit", "c": 0, "d": 0},
+            {"op": "evaluate", "c": 0, "cuts": rows, "scribble": True},
+            {"op": "evaluate", "c": 0, "cuts": rows},
+            {"op": "evaluate", "c": 0, "cuts": shuffled, "scribble": True},
+            {"op": "evaluate", "c": 0, "cuts": rows[:3]},
+            {"op": "evaluate", "c": 0, "cuts": shuffled},
+            {"op": "fit", "c": 0, "d": 1},
+            {"op": "evaluate", "c": 0, "cuts": rows},
+        ],
+    }
+    sim = Sim(trace, pristine)
+    for st in trace["steps"]:
+        sim.execute(st)
+        if sim.violations:
+            break
+    sim.finish()
+    r = _result(sim, trace)
+    r["signature"] = core.digest(["scale", task])
+    r["stats"].setdefault("probes", {})["scale_cases"] = 1
+    return r
 
 
 def run_scale(seed, idx, tier, pristine=None):
@@ -1239,6 +1294,8 @@ def run_scale(seed, idx, tier, pristine=None):
 
     tasks = scale_tasks()
     task = tasks[idx % len(tasks)]
+    if task["det"] is None:
+        return run_scale_scorer(task, seed, idx, pristine)
     rng = core.make_rng(seed, "C10", 4 * 10**6 + idx)
     kind = task["det"]
     pname, params, _ = SWEEP_DETECTORS[kind]
@@ -1272,6 +1329,8 @@ def run_scale(seed, idx, tier, pristine=None):
     d3 = mk(3, n2, p2, 1)
     k = int(rng.integers(6, 30))
     chunk_vals = np.round(rng.normal(size=(k, p2)), 2)
+    # a very small update (a row or two with an extreme value) on a long history
+    tiny_vals = np.round(rng.normal(size=(int(rng.integers(1, 3)), p2)), 2) + 25.0
     trace = {
         "property": "C10",
         "seed": int(seed),
@@ -1288,6 +1347,8 @@ def run_scale(seed, idx, tier, pristine=None):
             {"op": "fit", "c": 0, "d": 2},
             {"op": "predict", "c": 0, "d": 3},
             {"op": "transform", "c": 0, "d": 1},
+            {"op": "update", "c": 0, "like": 2, "values": values_to_json(tiny_vals)},
+            {"op": "transform_scores", "c": 0, "d": 2, "scribble": True},
             {"op": "update", "c": 0, "like": 2, "values": values_to_json(chunk_vals)},
             {"op": "transform_scores", "c": 0, "d": 2},
             {"op": "predict", "c": 0, "d": 0},
